@@ -112,6 +112,13 @@ CHECKS = [
      'text': 'For all parameters/origins/unit vectors: the point set of the Rectangle/Ellipse/Circle/Polygon patch built from the code arguments equals the region point set shifted by -origin (degrees vs radians, corner, width/height order), '
              'annulus path = outer ++ reversed inner with negated winding (a hole under the non-zero rule; un-reversed would fill it), points/text/lines at position - origin, caller kwargs override visual override defaults (after normalisation of aliases).',
      'note': 'Partial: matplotlib constructor/path semantics are parameters; validated on real patches by flattening Beziers and computing winding numbers (3e-4 boundary band for curves). F181/F181b fixed in /repo (dca4ab5).'},
+    {'property_id': 'C03',
+     'technique': 'Lean 4 theorems over R about a template-generated model of the circle exact kernel (same text instantiated over Float for execution); differential run against the compiled kernel and a 50-digit closed-form integration oracle',
+     'text': 'PARTIAL. Proved for the circle exact path, for all inputs: the quadrant recursion terminates (two levels suffice); a pixel wholly inside the disk gets exactly its own area and the grid cell is exactly 1, a pixel wholly outside gets exactly 0 — '
+             'through every branch (skip box, fast paths, recursion; additivity over the axis cuts); the two decisive branches of circular_overlap_core are geometrically sound; sub-pixel values are k/n^2 in [0,1] (C02). '
+             'NOT proved (validated only): that the arc+triangle expressions of partially covered pixels and the whole ellipse triangle/unit-circle routine equal the true area within 1e-8, values in [0,1] there, sum = analytic area, and the O(L/n) convergence bound.',
+     'note': 'Partial proof: the analytic core (area identities) is validated by a differential run: Float instance of the SAME Lean text vs the compiled kernel (1e-12), and kernel vs an independent closed-form integration oracle evaluated with 50-60 digits (1e-8). '
+             'Trusted: Lean kernel + 3 std axioms; tools/instantiate.py (one template, two instances); libm.'},
 ]
 
 _PENDING = 'check not built yet in this session (see DESIGN.md build order); not a statement that the technique cannot apply'
